@@ -6,10 +6,12 @@ import ast
 
 from ..cfg import CFG
 from ..astutil import inside
-from ..core import AnalysisError, const_value
+from ..core import AnalysisError, const_value, walk_own
 from ..events import container_events, root_name
 from ..defuse import DefUse, Terms, show, walk_term
-from ..tutil import lin, no_uids, simp
+from ..defuse import key as tkey_
+from ..tutil import (apply_partials, bound_args, lin, no_uids, simp,
+                     text_parts)
 
 EXPLANATION = (
     "Static analysis of parsers.pepxml._parse_pepxml / _parse_msms_run / "
@@ -50,7 +52,8 @@ def _psm(ctx, f):
     p_info, p_spec, p_prefix = f.params
     # working dict is a copy of the spectrum info
     cp = [n for n in f.node.body if isinstance(n, ast.Assign)
-          and ast.unparse(n.value) == f"{p_spec}.copy()"]
+          and len(n.targets) == 1 and isinstance(n.targets[0], ast.Name)
+          and _copy_of(T.of(n.value)) == ("param", p_spec)]
     ctx.check(len(cp) == 1, "C20c-copy-before-mutation", f,
               "the per-hit dictionary is a copy of the spectrum's "
               "dictionary", "spec_info is mutated in place: hits of one "
@@ -71,12 +74,20 @@ def _psm(ctx, f):
     def not_decoy(x):
         return ("un", "not", ("mcall", x, "startswith", (PRE,), ()))
 
-    COPY = ("mcall", ("param", p_spec), "copy", (), ())
+    COPY = T.of(cp[0].value)
 
     def is_d(t):
         while t[0] in ("store", "mut", "mutsub"):
             t = t[1]
         return (t[0] == "var" and t[1] == d) or t == COPY
+
+    if COPY[0] == "dict":
+        # entries of the literal the working dict starts as
+        from ..events import Event
+        for k_, v_ in _dict_items(COPY):
+            if k_[0] == "const":
+                evs.append(Event("store", COPY, k_, (), {}, cp[0],
+                                 cp[0], v_))
 
     def dstores(key):
         return [e for e in evs if e.kind == "store" and is_d(e.recv)
@@ -186,9 +197,8 @@ def _psm(ctx, f):
                       for x in walk_term(Tn.of(n.iter)))]
     ctx.require(len(mloops) == 1, f"{f.qual}: modification loop not found")
     ml = mloops[0]
-    body = {ast.unparse(s.targets[0]): s for s in ml.body
-            if isinstance(s, ast.Assign)}
-    augs = [s for s in ml.body if isinstance(s, ast.AugAssign)]
+    augs = [s_ for s_ in ast.walk(ml) if isinstance(s_, ast.AugAssign)
+            and isinstance(s_.target, ast.Name)]
     if not augs:
         # the other sound idiom: insert from the back, positions taken as
         # they are - only valid when the modifications are visited in
@@ -219,94 +229,90 @@ def _psm(ctx, f):
         raise AnalysisError(f"{f.qual}: back-to-front insertion recognised; "
                             "the remaining C20b clauses were written for "
                             "the running-offset idiom and need re-reading")
-    ctx.require(len(augs) == 1 and isinstance(augs[0].op, ast.Add),
-                f"{f.qual}: running offset update not found")
-    off = ast.unparse(augs[0].target)
-    idxs = [k for k, s in body.items()
-            if ast.unparse(s.value) in (f"{off} + int(mod.get('position'))",
-                                        f"int(mod.get('position')) + {off}")]
-    ctx.check(len(idxs) == 1, "C20b-insert-position", f,
-              "insertion index = running offset + the modification's "
-              "position",
-              f"{ {k: ast.unparse(v.value)[:50] for k, v in body.items()} }",
-              node=ml)
-    ins = [s for k, s in body.items() if isinstance(s.value, ast.BinOp)
-           and k not in idxs and "[" in ast.unparse(s.value)]
-    ok_ins = False
-    inserted_len = None
-    if len(ins) == 1 and idxs:
-        s = ins[0]
-        tgt = ast.unparse(s.targets[0])
-        parts = []
-
-        def flat(e):
-            if isinstance(e, ast.BinOp) and isinstance(e.op, ast.Add):
-                flat(e.left)
-                flat(e.right)
-            else:
-                parts.append(e)
-        flat(s.value)
-        txt = [ast.unparse(p) for p in parts]
-        if len(parts) >= 3 and txt[0] == f"{tgt}[:{idxs[0]}]" and \
-                txt[-1] == f"{tgt}[{idxs[0]}:]":
-            ok_ins = True
-            consts = 0
-            names = []
-            for p in parts[1:-1]:
-                if isinstance(p, ast.Constant) and isinstance(p.value, str):
-                    consts += len(p.value)
-                else:
-                    names.append(ast.unparse(p))
-            inserted_len = (consts, sorted(names))
+    Tv = Terms(du, phi_vars=True)
+    MOD = ("elem", Tv.of(ml.iter))
+    POS = ("call", "builtins.int",
+           (("mcall", MOD, "get", (("const", "position"),), ()),), ())
+    none = ("const", None)
+    # the loop-carried peptide string: P = P[:i] + text + P[i:]
+    cands = []
+    for d_ in du.defs:
+        if d_.kind != "assign" or d_.node is None or not inside(
+                d_.node, ml) or not isinstance(d_.node, ast.Assign):
+            continue
+        parts = text_parts(Tv.of_def(d_))
+        if len(parts) >= 3 and parts[0][0] == "sub" and \
+                parts[-1][0] == "sub" and parts[0][1][:2] == (
+                    "var", d_.name) and parts[-1][1][:2] == ("var", d_.name):
+            cands.append((d_, parts))
+    ctx.require(len(cands) == 1, f"{f.qual}: insertion into the running "
+                f"peptide string not found ({len(cands)} candidates)")
+    pdef, parts = cands[0]
+    head, tail_ = parts[0][2], parts[-1][2]
+    ok_ins = (head[0] == "slice" and tail_[0] == "slice"
+              and head[1] == none and tail_[2] == none
+              and head[3] == none and tail_[3] == none
+              and head[2] == tail_[1])
     ctx.check(ok_ins, "C20b-insert-at-one-position", f,
               "the modified peptide is prefix[:idx] + text + suffix[idx:] "
               "with the same idx on both sides",
-              f"{[ast.unparse(s)[:100] for s in ins]}", node=ml)
-    if inserted_len:
-        consts, names = inserted_len
-        inc = augs[0].value
-        # increment as const + sum(len(name))
-        inc_const = 0
-        inc_names = []
-
-        def flat2(e):
-            nonlocal inc_const
-            if isinstance(e, ast.BinOp) and isinstance(e.op, ast.Add):
-                flat2(e.left)
-                flat2(e.right)
-            elif isinstance(e, ast.Constant) and isinstance(e.value, int):
-                inc_const += e.value
-            elif isinstance(e, ast.Call) and ast.unparse(e.func) == "len":
-                inc_names.append(ast.unparse(e.args[0]))
-            else:
-                inc_names.append("?" + ast.unparse(e))
-        flat2(inc)
-        ok = inc_const == consts and sorted(inc_names) == names
-        ctx.check(ok, "C20b-offset-equals-inserted-length", f,
-                  "the running offset grows by exactly the length of the "
-                  "inserted text",
-                  f"inserted text has {consts} literal characters + "
-                  f"len({names}); the offset grows by {inc_const} + "
-                  f"len({inc_names}): later modifications of the same "
-                  "peptide land on the wrong residue", node=augs[0])
+              f"pieces: {[show(x, 50) for x in parts]}", node=pdef.node)
+    IDX = head[2]
+    li = lin(IDX)
+    offs = [(li.terms[k], c) for k, c in li.atoms.items()
+            if li.terms[k][0] == "var"]
+    rest = [(li.terms[k], c) for k, c in li.atoms.items()
+            if li.terms[k][0] != "var"]
+    ok_pos = li.const == 0 and len(offs) == 1 and offs[0][1] == 1 and \
+        rest == [(POS, 1)]
+    ctx.check(ok_pos, "C20b-insert-position", f,
+              "insertion index = running offset + the modification's "
+              "position", f"index is {li!r}", node=pdef.node)
+    if not ok_pos:
+        return
+    off = offs[0][0][1]
+    mid = parts[1:-1]
+    consts = sum(len(x[1]) for x in mid if x[0] == "const"
+                 and isinstance(x[1], str))
+    texts = [x for x in mid if not (x[0] == "const"
+                                    and isinstance(x[1], str))]
+    incs = [a_ for a_ in augs if a_.target.id == off
+            and isinstance(a_.op, ast.Add)]
+    ctx.require(len(incs) == 1, f"{f.qual}: running offset update not found")
+    linc = lin(Tv.of(incs[0].value))
+    inc_lens = sorted(tkey_(no_uids(linc.terms[k])) for k, c in
+                      linc.atoms.items() if c == 1)
+    want_lens = sorted(tkey_(no_uids(("call", "builtins.len", (x,), ())))
+                       for x in texts)
+    ok = linc.const == consts and inc_lens == want_lens and all(
+        c == 1 for c in linc.atoms.values())
+    ctx.check(ok, "C20b-offset-equals-inserted-length", f,
+              "the running offset grows by exactly the length of the "
+              "inserted text",
+              f"inserted text has {consts} literal characters + "
+              f"{[show(x, 30) for x in texts]}; the offset grows by "
+              f"{linc!r}: later modifications of the same "
+              "peptide land on the wrong residue", node=incs[0])
     # offset starts at 0 for every modification_info
-    zero = [n for n in ast.walk(f.node) if isinstance(n, ast.Assign)
-            and ast.unparse(n.targets[0]) == off
-            and const_value(n.value) == 0]
-    ok_z = len(zero) == 1 and cfg.every_path_passes(
-        cfg.entry.id, cfg.node_of(ml).id, {cfg.node_of(zero[0]).id}) and \
-        not any(x is zero[0] for x in ast.walk(ml))
+    zero = [d_ for d_ in du.defs if d_.name == off and d_.kind == "assign"
+            and d_.node is not None and not inside(d_.node, ml)]
+    ok_z = len(zero) == 1 and Tv.of_def(zero[0]) == ("const", 0) and \
+        cfg.every_path_passes(cfg.entry.id, cfg.node_of(ml).id,
+                              {cfg.node_of(zero[0].node).id})
+    if ok_z:
+        el = cfg.enclosing(ml, (ast.For, ast.While))
+        ok_z = el is None or inside(zero[0].node, el)
     ctx.check(ok_z, "C20b-offset-starts-at-zero", f,
               "the running offset is reset to 0 before the modifications of "
               "a hit", "offset not initialised to 0 before the loop",
               node=ml)
-    fin = [s for s in ast.walk(f.node) if isinstance(s, ast.Assign)
-           and ast.unparse(s.targets[0]) == f"{d}['peptide']"
-           and not isinstance(s.value, ast.Call)]
-    ctx.check(len(fin) == 1 and ins and ast.unparse(fin[0].value) ==
-              ast.unparse(ins[0].targets[0]), "C20b-modified-peptide-stored",
+    fin = [e for e in evs if e.kind == "store" and is_d(e.recv)
+           and e.key == ("const", "peptide")
+           and cfg.enclosing(e.stmt, (ast.For, ast.While)) is not None]
+    ctx.check(len(fin) == 1 and root_name(fin[0].value) == pdef.name,
+              "C20b-modified-peptide-stored",
               f, "the modified peptide replaces the plain one",
-              f"{[ast.unparse(x)[:60] for x in fin]}", node=f.node)
+              f"{[show(e.value, 60) for e in fin]}", node=f.node)
     # search scores become features; proteins joined
     other = [n for n in ast.walk(f.node) if isinstance(n, ast.Assign)
              and ast.unparse(n.targets[0]) == f"{d}[element.get('name')]"]
@@ -318,16 +324,22 @@ def _psm(ctx, f):
     ctx.check(len(rets) == 1 and ast.unparse(rets[0].value) == d,
               "C20c-one-dict-per-hit", f, "one dictionary is returned per "
               "hit", f"{[ast.unparse(r) for r in rets]}", node=f.node)
-    q = [n for n in ast.walk(f.node) if isinstance(n, ast.Assign)
-         and ast.unparse(n.targets[0]) == "queries"]
-    ok_q = len(q) == 1 and sorted(
-        const_value(e) for e in q[0].value.elts) == [
-            "{*}alternative_protein", "{*}modification_info",
-            "{*}search_score"]
-    ctx.check(ok_q, "C20c-elements-visited", f,
-              "modification_info, search_score and alternative_protein "
-              "children are all visited",
-              f"{[ast.unparse(x.value) for x in q]}", node=f.node)
+    # the loop over a hit's children asks for all three kinds of element
+    el = cfg.enclosing(ml, (ast.For,))
+    tags = []
+    if el is not None:
+        it = Tn.of(el.iter)
+        if it[0] == "mcall" and it[2] == "iter":
+            for a_ in it[3]:
+                if a_[0] == "star" and a_[1][0] in ("list", "tuple"):
+                    tags.extend(x[1] for x in a_[1][1] if x[0] == "const")
+                elif a_[0] == "const":
+                    tags.append(a_[1])
+    ctx.check(sorted(tags) == [
+        "{*}alternative_protein", "{*}modification_info",
+        "{*}search_score"], "C20c-elements-visited", f,
+        "modification_info, search_score and alternative_protein "
+        "children are all visited", f"iterated tags: {tags}", node=f.node)
 
 
 def _nesting(ctx):
@@ -337,15 +349,37 @@ def _nesting(ctx):
     top = prog.func(PX + "_parse_pepxml")
     for g, inner, loops_expected in ((run, "_parse_spectrum", 1),
                                      (spec, "_parse_psm", 2)):
-        ys = [n for n in ast.walk(g.node) if isinstance(n, ast.Yield)]
+        gT = Terms(DefUse(prog, g))
         cfg = CFG(g.node)
-        ok = len(ys) == 1 and isinstance(ys[0].value, ast.Call) and \
-            ast.unparse(ys[0].value.func) == inner and not [
-                x for x in cfg.guards(ys[0])]
-        loops = cfg.enclosing_all(ys[0], (ast.For,)) if ys else []
-        ok = ok and len(loops) == loops_expected and not any(
+        sites = []
+        for n in walk_own(g.node):
+            if isinstance(n, ast.Yield) and n.value is not None:
+                t = apply_partials(gT.of(n.value))
+                if t[0] == "call" and t[1] == PX + inner:
+                    sites.append((n, "yield"))
+                else:
+                    sites.append((n, None))
+            elif isinstance(n, ast.YieldFrom):
+                t = apply_partials(gT.of(n.value))
+                fn = t[2][0] if t[0] == "call" and t[1] == "builtins.map" \
+                    and len(t[2]) == 2 else None
+                ok_fn = fn is not None and (
+                    fn in (("name", PX + inner), ("free", PX + inner)) or (
+                        fn[0] == "call" and fn[1] == "functools.partial"
+                        and fn[2][:1] in ((("name", PX + inner),),
+                                          (("free", PX + inner),))))
+                sites.append((n, "map" if ok_fn else None))
+        ctx.require(sites and all(k is not None for _n, k in sites),
+                    f"{g.qual}: what is yielded is not {inner}(...) per "
+                    "element in a recognised form; rule C20c needs "
+                    "re-reading")
+        ok = len(sites) == 1
+        y = sites[0][0]
+        loops = cfg.enclosing_all(y, (ast.For, ast.While))
+        ok = ok and not cfg.necessary_conditions(cfg.stmt_of(y)) and not any(
             isinstance(x, (ast.Break, ast.Continue, ast.Return))
-            for lp in loops for x in ast.walk(lp))
+            for lp in loops for x in ast.walk(lp)) and not any(
+            isinstance(lp, ast.While) for lp in loops)
         ctx.check(ok, "C20c-every-element-yielded", g,
                   f"{g.name} yields {inner}(...) for every element, "
                   "unconditionally",
@@ -363,14 +397,21 @@ def _nesting(ctx):
                   f"iterates {want[g.qual]}", f"iterates {tags}",
                   node=g.node)
     # copies
-    cp = [n for n in ast.walk(spec.node) if isinstance(n, ast.Assign)
-          and ast.unparse(n.value) == f"{spec.params[1]}.copy()"]
+    sT = Terms(DefUse(prog, spec), phi_vars=True)
+    RUNINFO = ("param", spec.params[1])
+    cp = [n for n in walk_own(spec.node) if isinstance(n, ast.Assign)
+          and _copy_of(sT.of(n.value)) == RUNINFO]
     ctx.check(len(cp) == 1, "C20c-copy-before-mutation", spec,
               "the per-spectrum dictionary is a copy of the run's",
               "run_info is mutated in place", node=spec.node)
     # spectrum attributes
-    sT = Terms(DefUse(prog, spec), phi_vars=True)
     attrs = {}
+    for n in cp:
+        t = sT.of(n.value)
+        if t[0] == "dict":
+            for k, v in _dict_items(t):
+                if k[0] == "const":
+                    attrs[k[1]] = v
     for e in container_events(spec.node, sT, CFG(spec.node)):
         if e.kind == "store" and e.key[0] == "const":
             attrs[e.key[1]] = e.value
@@ -395,17 +436,60 @@ def _nesting(ctx):
               "scan, charge, retention time and precursor mass come from "
               "their documented attributes", f"{attrs}", node=spec.node)
     # run: data file name = base_name (+ raw_data extension)
-    ri = [n for n in ast.walk(run.node) if isinstance(n, ast.Assign)
-          and ast.unparse(n.targets[0]) == "run_info"]
-    ok_r = len(ri) == 1 and ast.unparse(ri[0].value) == \
-        "{'ms_data_file': ms_data_file}"
-    bn = [n for n in ast.walk(run.node) if isinstance(n, ast.Assign)
-          and ast.unparse(n.targets[0]) == "ms_data_file"]
-    ok_r = ok_r and bn and ast.unparse(bn[0].value) == \
-        "msms_run.get('base_name')"
+    rT = Terms(DefUse(prog, run))
+    infos = []
+    for n in walk_own(run.node):
+        if isinstance(n, ast.Call):
+            t = apply_partials(rT.of(n))
+            if t[0] == "call" and t[1] == PX + "_parse_spectrum":
+                b_ = bound_args(prog, t) or {}
+                if "run_info" in b_:
+                    infos.append(b_["run_info"])
+            elif t[0] == "call" and t[1] == "functools.partial" and \
+                    t[2][:1] in ((("name", PX + "_parse_spectrum"),),
+                                 (("free", PX + "_parse_spectrum"),)):
+                kw_ = dict(t[3])
+                if "run_info" in kw_:
+                    infos.append(kw_["run_info"])
+    ctx.require(infos, f"{run.qual}: run info handed to _parse_spectrum "
+                "not found")
+
+    def leaves(t):
+        if t[0] == "phi":
+            return [y for x in t[1] for y in leaves(x)]
+        if t[0] == "ifexp":
+            return leaves(t[2]) + leaves(t[3])
+        return [t]
+
+    ok_r = True
+    names = []
+    for info in infos:
+        for d_ in leaves(info):
+            items = dict((k[1], v) for k, v in _dict_items(d_)
+                         if k[0] == "const") if d_[0] == "dict" else {}
+            if set(items) != {"ms_data_file"}:
+                ok_r = False
+                continue
+            names.extend(leaves(items["ms_data_file"]))
+
+    def is_base(x):
+        return x[0] == "mcall" and x[2] == "get" and x[3] == (
+            ("const", "base_name"),)
+
+    def is_ext(x):
+        return x[0] == "mcall" and x[2] == "get" and x[3] == (
+            ("const", "raw_data"),)
+
+    ok_r = ok_r and bool(names) and all(
+        is_base(x) or (x[0] == "bin" and x[1] == "+" and all(
+            is_base(y) or is_ext(y) or y[0] == "phi"
+            for y in (x[2], x[3]))) for x in names) and any(
+        is_base(x) or (x[0] == "bin" and is_base(x[2])) or any(
+            is_base(z) for y in (x[2:4] if x[0] == "bin" else ())
+            for z in leaves(y)) for x in names)
     ctx.check(bool(ok_r), "C20c-run-file-name", run,
               "every PSM of a run carries the run's base_name as data file",
-              "run info is not {'ms_data_file': base_name}", node=run.node)
+              f"run info is {[show(i, 120) for i in infos]}", node=run.node)
     # two flattenings in _parse_pepxml
     txt = ast.unparse(top.node)
     n_flat = txt.count("itertools.chain.from_iterable(")
@@ -468,3 +552,15 @@ def _dict_items(t):
     if len(t) == 3:
         return list(zip(t[1], t[2]))
     return []
+
+
+def _copy_of(t):
+    """X when the term is a fresh dict with X's entries: X.copy(), dict(X),
+    {**X, ...}; None otherwise"""
+    if t[0] == "mcall" and t[2] == "copy" and not t[3]:
+        return t[1]
+    if t[0] == "call" and t[1] == "builtins.dict" and len(t[2]) == 1:
+        return t[2][0]
+    if t[0] == "dict" and len(t) == 3 and t[1] and t[1][0][0] == "star":
+        return t[2][0]
+    return None
